@@ -1176,4 +1176,129 @@ theorem adjInv_length (inv : List IGpu) (runners : List LRunner) :
   unfold adjInv
   simp [List.length_zipWith, updateFree_length]
 
+/-! ### histories of the load path -/
+
+theorem estOf_zip : ∀ (ids sizes : List Nat) (id : Nat), estOf (ids.zip sizes) id = vramByGPU ids sizes id := by
+  intro ids
+  induction ids with
+  | nil => intro sizes id; simp [estOf, vramByGPU]
+  | cons i is ih =>
+    intro sizes id
+    cases sizes with
+    | nil => simp [estOf, vramByGPU]
+    | cons s ss =>
+      have := ih ss id
+      unfold estOf at this ⊢
+      simp only [List.zip_cons_cons, List.lookup, vramByGPU]
+      by_cases h : i = id
+      · subst h; simp
+      · have h' : (id == i) = false := by simp; exact fun e => h e.symm
+        have h'' : (i == id) = false := by simp [h]
+        rw [h', h'']
+        simpa using this
+
+theorem filter_key_unique {α : Type} (key : α → Nat) : ∀ (l : List α), (l.map key).Nodup → ∀ g ∈ l,
+    l.filter (fun x => key x == key g) = [g] := by
+  intro l
+  induction l with
+  | nil => intro _ g hg; simp at hg
+  | cons a rest ih =>
+    intro hn g hg
+    simp only [List.map_cons, List.nodup_cons] at hn
+    simp only [List.mem_cons] at hg
+    rcases hg with rfl | hg
+    · have hnone : rest.filter (fun x => key x == key g) = [] := by
+        rw [List.filter_eq_nil_iff]
+        intro x hx hk
+        apply hn.1
+        have : key x = key g := by simpa using hk
+        rw [← this]
+        exact List.mem_map.mpr ⟨x, hx, rfl⟩
+      simp [hnone]
+    · have hne : (key a == key g) = false := by
+        simp only [beq_eq_false_iff_ne, ne_eq]
+        intro he
+        apply hn.1
+        rw [he]
+        exact List.mem_map.mpr ⟨g, hg, rfl⟩
+      simp only [List.filter_cons, hne, Bool.false_eq_true, ↓reduceIte]
+      exact ih hn.2 g hg
+
+/-- what the loaded runners are predicted to use on the GPU with ID class `id` -/
+def usedOn (rs : List LRunner) (id : Nat) : Nat := (rs.map fun r => vramByGPU r.ids r.sizes id).sum
+
+theorem usedOn_append (rs : List LRunner) (r : LRunner) (id : Nat) :
+    usedOn (rs ++ [r]) id = usedOn rs id + vramByGPU r.ids r.sizes id := by
+  simp [usedOn]
+
+/-- with unique IDs and `(Library, ID)` classes that coincide with the ID classes, the summed prediction
+    `updateFreeSpace` holds against an offered GPU is exactly what the loaded runners plan on it -/
+theorem loadPred_eq_usedOn (inv : List IGpu) (rs : List LRunner) (g : IGpu)
+    (hn : (idsOf inv).Nodup) (hk : ∀ x ∈ inv, x.lkey = x.f.idk)
+    (hg : g ∈ filterLoading rs inv) (hlt : usedOn rs g.f.idk < W) :
+    loadPred inv rs g = usedOn rs g.f.idk := by
+  have hsub := filterLoading_sublist rs inv
+  have hn' : ((filterLoading rs inv).map (fun x => x.lkey)).Nodup := by
+    have h1 : (idsOf (filterLoading rs inv)).Nodup := idsOf_nodup_sublist hsub hn
+    have h2 : (filterLoading rs inv).map (fun x => x.lkey) = idsOf (filterLoading rs inv) := by
+      unfold idsOf
+      apply List.map_congr_left
+      intro x hx
+      exact hk x (hsub.subset hx)
+    rw [h2]; exact h1
+  have hfilt : ((filterLoading rs inv).map IGpu.toS).filter (fun s => s.key == g.lkey) = [g.toS] := by
+    rw [List.filter_map]
+    have := filter_key_unique (fun x : IGpu => x.lkey) (filterLoading rs inv) hn' g hg
+    have hfe : (fun s : SGpu => s.key == g.lkey) ∘ IGpu.toS = fun x : IGpu => x.lkey == g.lkey := by
+      funext x; simp [IGpu.toS]
+    rw [hfe, this]
+    rfl
+  have hterms : ∀ r : LRunner, runnerTerms ((filterLoading rs inv).map IGpu.toS) g.lkey r.toR
+      = [vramByGPU r.ids r.sizes g.f.idk] := by
+    intro r
+    simp only [runnerTerms, LRunner.toR, hfilt, List.map_cons, List.map_nil, estOf_zip, IGpu.toS]
+  have hflat : ∀ (l : List LRunner), (l.map LRunner.toR).flatMap (runnerTerms ((filterLoading rs inv).map IGpu.toS) g.lkey)
+      = l.map (fun r => vramByGPU r.ids r.sizes g.f.idk) := by
+    intro l
+    induction l with
+    | nil => rfl
+    | cons a rest ih => simp only [List.map_cons, List.flatMap_cons, hterms, ih, List.singleton_append]
+  unfold loadPred predOf
+  rw [hflat]
+  have := accW_eq (rs.map fun r => vramByGPU r.ids r.sizes g.f.idk) 0 (by simpa [usedOn] using hlt)
+  simpa [usedOn] using this
+
+
+theorem eraseIdx_usedOn_le (id : Nat) : ∀ (rs : List LRunner) (k : Nat), usedOn (rs.eraseIdx k) id ≤ usedOn rs id := by
+  intro rs
+  induction rs with
+  | nil => intro k; simp
+  | cons a rest ih =>
+    intro k
+    cases k with
+    | zero => simp [usedOn]
+    | succ k =>
+      have := ih k
+      simp only [usedOn, List.eraseIdx_cons_succ, List.map_cons, List.sum_cons] at this ⊢
+      omega
+
+/-- runner `k` finishes loading (`runner.loading = false`) -/
+def finishAt : Nat → List LRunner → List LRunner
+  | _, [] => []
+  | 0, r :: rest => { r with loading := false } :: rest
+  | k + 1, r :: rest => r :: finishAt k rest
+
+theorem finishAt_usedOn (id : Nat) : ∀ (rs : List LRunner) (k : Nat), usedOn (finishAt k rs) id = usedOn rs id := by
+  intro rs
+  induction rs with
+  | nil => intro k; cases k <;> rfl
+  | cons a rest ih =>
+    intro k
+    cases k with
+    | zero => simp [finishAt, usedOn]
+    | succ k =>
+      have := ih k
+      simp only [usedOn, finishAt, List.map_cons, List.sum_cons] at this ⊢
+      omega
+
 end OllamaVerif.Memory
